@@ -789,7 +789,7 @@ func TestVerifC11Lifecycle(t *testing.T) {
 	res.Rule = fmt.Sprintf("case = one complete schedule of the real engine goroutines (step, apply, snapshot pool main + worker, close pool main + worker) plus a NodeHost thread (and a StaleRead client) over one real node with an instrumented user state machine; every schedule with <= %d (scenarios without a positioning wait: one less) deviations from the default schedule (running thread first, else lowest thread id; a deviation is any other choice at any scheduling point, which includes every preemption) of each scenario is executed; non-trivial = at least two user state machine methods were called and the schedule has a preemption or an observed overlap", bound)
 	res.Assumptions = []string{
 		"schedx: scheduling points at every sync/atomic operation and channel statement of engine.go, node.go, request.go, queue.go, quiesce.go, snapshotstate.go and internal/rsm, and inside every user state machine method; code of other packages runs atomically between two points",
-		"a select with several ready cases takes the first ready case in source order (Go picks at random); tickers and timers only fire when the scenario says so",
+		"when several cases of a select are ready the choice is part of the schedule (default: first in source order, every other ready case costs one deviation); tickers and timers only fire when the scenario says so",
 		fmt.Sprintf("deviation bound %d for the scenarios in which the host waits for a user method to be in progress, one less for the others; single-replica shard; one step/apply/snapshot/close worker", bound),
 	}
 	var rp lcReplay
